@@ -304,6 +304,8 @@ func classifyJ2(p para, engine, mode string, a, b int, u unit) string {
 		return "space-inside-span-edge" // KF11-5
 	case strings.Contains(cs, "S"):
 		return "span-left-edge" // KF11-2
+	case strings.Contains(cs, "N"):
+		return "wrapmode-cut-in-nested-boxes" // KF11-15
 	}
 	return engine + ":" + mode + ":" + cs
 }
